@@ -132,3 +132,7 @@ package trace
 //@   pure
 //@ interface ReadOnlySpan.ChildSpanCount() (r int)
 //@   pure
+//@ interface ReadOnlySpan.InstrumentationScope() (r instrumentation.Scope)
+//@   pure
+//@ interface ReadOnlySpan.Resource() (r *resource.Resource)
+//@   pure
